@@ -341,6 +341,18 @@ def masquerade(kinds):
                         def __getattr__(self, n): return _Any()
                     m.__getattr__ = lambda n: _Any()
                 sys.modules[name] = m
+        elif k.startswith("broken-import:"):
+            # `import <mod>` (and `from <mod>... import`) raises ImportError when the importing module belongs to the library; the harness keeps its own access
+            import builtins
+            blocked = k.split(":", 1)[1]
+            real_import = builtins.__import__
+            def guarded_import(name, globals=None, locals=None, fromlist=(), level=0, _b=blocked, _r=real_import):
+                if level == 0 and (name == _b or name.startswith(_b + ".")) and globals is not None and str(globals.get("__name__", "")).split(".")[0] == "webauthn":
+                    raise ImportError(f"No module named {name!r} (masked by the verification harness)")
+                return _r(name, globals, locals, fromlist, level)
+            builtins.__import__ = guarded_import
+            for mn in [m for m in sys.modules if m == "webauthn" or m.startswith("webauthn.")]:
+                del sys.modules[mn]
         elif k.startswith("files:"):
             # absolute paths the changed source newly names (harness/srcdict.paths): every one exists and reads as the given content
             import builtins, io
